@@ -4,7 +4,7 @@ import vlib
 
 NILC = {"q": [-2, -2, -2, -2], "x": "nil"}
 
-LAYOUT_SETS = {"LayoutsAll": [[1, 1], [1, 2], [2, 2], [3, 3], [3, 4], [4, 4]], "LayoutsSmall": [[1, 2], [2, 2], [4, 4]]}
+LAYOUT_SETS = {"LayoutsInside": [[2, 2], [4, 4]], "LayoutsAll": [[1, 1], [1, 2], [2, 2], [3, 3], [3, 4], [4, 4]], "LayoutsSmall": [[1, 2], [2, 2], [4, 4]]}
 
 
 def norm_event(e):
@@ -26,7 +26,7 @@ def norm_event(e):
     return e
 
 
-def trace_cfg(corrupt_mode, reader_deletes, allow_delete_fresh, readers=("r1", "r2", "r3", "fin"), nwriters=2,
+def trace_cfg(corrupt_mode, reader_deletes, allow_delete_fresh, readers=("r1", "r2", "r3", "fin", "ro"), nwriters=2,
               init_img=1, reader_restores=True):
     return """SPECIFICATION TraceSpec
 CONSTANTS
@@ -41,6 +41,7 @@ CONSTANTS
   ReaderRestores = %s
   AllowDeleteFresh = %s
   ReaderCrash = TRUE
+  ROReaders = {"ro"}
 CONSTRAINT HighWater
 POSTCONDITION TraceAccepted
 CHECK_DEADLOCK FALSE
@@ -50,7 +51,7 @@ CHECK_DEADLOCK FALSE
 
 
 def mc_cfg(readers, nwriters, layouts, corrupt_mode, reader_deletes, allow_delete_fresh, reader_crash=True,
-           emit=False, invariants=("TypeOK", "ReadIsOldOrNew"), max_crash=1, reader_restores=True):
+           emit=False, invariants=("TypeOK", "ReadIsOldOrNew"), max_crash=1, reader_restores=True, init_img=1):
     s = """SPECIFICATION Spec
 CONSTANTS
   Readers = {%s}
@@ -58,14 +59,15 @@ CONSTANTS
   Layouts <- %s
   TornPrefixes <- AllPrefixes
   MaxCrash = %d
-  InitImg = 1
+  InitImg = %d
   CorruptMode = "%s"
   ReaderDeletes = %s
   ReaderRestores = %s
   AllowDeleteFresh = %s
   ReaderCrash = %s
+  ROReaders = {}
 CHECK_DEADLOCK FALSE
-""" % (", ".join('"%s"' % r for r in readers), nwriters, layouts, max_crash, corrupt_mode,
+""" % (", ".join('"%s"' % r for r in readers), nwriters, layouts, max_crash, init_img, corrupt_mode,
        "TRUE" if reader_deletes else "FALSE", "TRUE" if reader_restores else "FALSE",
        "TRUE" if allow_delete_fresh else "FALSE",
        "TRUE" if reader_crash else "FALSE")
@@ -101,10 +103,10 @@ def probe(c, binp):
 NON_STOPPING = {"delstale", "checkcow", "mkcow"}
 
 
-def export_graph(c, cfg_text, workers=4, timeout=900):
+def export_graph(c, cfg_text, workers=4, timeout=900, tag="emit"):
     """Run TLC with EmitState/EmitEdge and return (states: key -> record, edges: [(u, v)], inits, TLCResult)."""
     r = c.tlc_must_pass("BlockCow", "BlockCow_emit.cfg", files={"BlockCow_emit.cfg": cfg_text}, workers=workers,
-                        timeout=timeout, tag="emit")
+                        timeout=timeout, tag=tag)
     states, edges = {}, []
     ids = {}
     for p in r.prints:
@@ -252,72 +254,89 @@ def plan_for(states, macro, path, name):
 # ------------------------------------------------------------------------------------------------
 # code -> spec with notes
 
-def validate_with_notes(c, traces, cfg_text, chunk=400, timeout=900, parallel=4):
-    """Like vlib.validate_traces, but also returns the NOTE lines the trace spec printed, mapped to
-    (trace name, event index).  Chunks are validated by `parallel` TLC processes (1 worker each).
-    Returns (rejections, notes)."""
+def _run_trace_chunk(c, pending, cfg_text, timeout, tag):
+    """One TLC run over the traces in `pending`.  Returns (accepted: set of trace positions, notes, hwm, TLCResult)."""
+    lines, index, last = [], [], []
+    for ti, (name, evs) in enumerate(pending):
+        lines.append({"ev": "Reset", "trace": name})
+        index.append((ti, -1))
+        for ei, ev in enumerate(evs):
+            lines.append(dict(ev))
+            index.append((ti, ei))
+        last.append(len(lines))           # 1-based number of the last line of this trace
+    # nr: 1-based line number of the next Reset after this line (or one past the end)
+    nxt = len(lines) + 1
+    for i in range(len(lines) - 1, -1, -1):
+        lines[i]["nr"] = nxt
+        if lines[i]["ev"] == "Reset":
+            nxt = i + 1
+    text = "\n".join(json.dumps(x, sort_keys=True) for x in lines) + "\n"
+    r = c.tlc("BlockCowTrace", "T.cfg", workers=1, timeout=timeout, tag=tag,
+              files={"trace.ndjson": text, "T.cfg": cfg_text})
+    if r.timed_out:
+        raise vlib.InfraError("trace validation timed out")
+    hwm, ok_lines, notes = None, set(), []
+    for pr in r.prints:
+        m = re.search(r'"HWM",\s*(\d+)', pr)
+        if m:
+            hwm = int(m.group(1))
+            continue
+        s = vlib.tla_unquote(pr)
+        if not isinstance(s, str):
+            continue
+        if s.startswith("OK|"):
+            ok_lines.add(int(s[3:]))
+        elif s.startswith("NOTE|"):
+            f = s.split("|")
+            ln = int(f[1]) - 1
+            if 0 <= ln < len(index):
+                ti, ei = index[ln]
+                notes.append(dict(trace=pending[ti][0], index=ei, kind=f[2], used=f[3] if len(f) > 3 else "",
+                                  events=pending[ti][1]))
+    if hwm is None or (r.violated and r.violated != "postcondition") or r.rc != 0 and not r.prints:
+        raise vlib.InfraError("trace validation failed to run (%s):\n%s" % (r.violated, r.out[-5000:]))
+    accepted = {ti for ti in range(len(pending)) if last[ti] in ok_lines}
+    return accepted, notes, hwm, r
+
+
+def validate_with_notes(c, traces, cfg_text, chunk=400, timeout=900, parallel=4, diagnose=6):
+    """Trace validation with BlockCowTrace.  A rejected trace does not stop the run (TraceSkip); a trace is accepted
+    iff the spec printed OK|<its last line>.  The first `diagnose` rejected traces are re-run alone to find the
+    first event the spec refuses.  Returns (rejections, notes); notes = what the spec printed about accepted steps
+    (finding actions taken, property broken)."""
     from concurrent.futures import ThreadPoolExecutor
     chunks = [list(traces[off:off + chunk]) for off in range(0, len(traces), chunk)]
 
     def one(args):
         ci, pending = args
-        rejections, notes, stats = [], [], dict(states=0, transitions=0, ok=0)
-        rnd = 0
-        while pending:
-            rnd += 1
-            lines, index = [], []
-            for ti, (name, evs) in enumerate(pending):
-                lines.append(json.dumps({"ev": "Reset", "trace": name}))
-                index.append((ti, -1))
-                for ei, ev in enumerate(evs):
-                    lines.append(json.dumps(ev, sort_keys=True))
-                    index.append((ti, ei))
-            r = c.tlc("BlockCowTrace", "T.cfg", workers=1, timeout=timeout, tag="trace-c%d-r%d" % (ci, rnd),
-                      files={"trace.ndjson": "\n".join(lines) + "\n", "T.cfg": cfg_text})
-            if r.timed_out:
-                raise vlib.InfraError("trace validation timed out")
-            hwm = None
-            for pr in r.prints:
-                m = re.search(r'"HWM",\s*(\d+)', pr)
-                if m:
-                    hwm = int(m.group(1))
-            if hwm is None:
-                raise vlib.InfraError("trace validation produced no HWM:\n%s" % r.out[-5000:])
-            stats["states"] += r.distinct
-            stats["transitions"] += r.generated
-            for pr in r.prints:
-                s = vlib.tla_unquote(pr)
-                if isinstance(s, str) and s.startswith("NOTE|"):
-                    f = s.split("|")
-                    ln = int(f[1]) - 1
-                    if ln < min(hwm, len(index)):
-                        ti, ei = index[ln]
-                        notes.append(dict(trace=pending[ti][0], index=ei, kind=f[2], used=f[3] if len(f) > 3 else "",
-                                          events=pending[ti][1]))
-            if hwm >= len(lines):
-                if r.violated and r.violated != "postcondition":
-                    raise vlib.InfraError("trace spec error: %s\n%s" % (r.violated, r.out[-4000:]))
-                stats["ok"] += len(pending)
-                pending = []
-            else:
-                ti, ei = index[hwm]
-                name, evs = pending[ti]
-                rejections.append(dict(trace=name, index=ei, event=evs[ei] if ei >= 0 else None,
-                                       prev=evs[ei - 1] if ei > 0 else None, events=evs,
-                                       tlc_tail=r.out[-1500:] if r.violated not in (None, "postcondition") else ""))
-                stats["ok"] += ti
-                pending = pending[ti + 1:]
-        return rejections, notes, stats
+        accepted, notes, hwm, r = _run_trace_chunk(c, pending, cfg_text, timeout, "trace-c%d" % ci)
+        rejected = [pending[ti] for ti in range(len(pending)) if ti not in accepted]
+        return rejected, notes, dict(states=r.distinct, transitions=r.generated, ok=len(accepted))
 
-    rejections, notes = [], []
+    rejected, notes = [], []
     with ThreadPoolExecutor(max_workers=max(1, parallel)) as ex:
-        for rej, nts, st in ex.map(one, list(enumerate(chunks))):
-            rejections += rej
+        for rj, nts, st in ex.map(one, list(enumerate(chunks))):
+            rejected += rj
             notes += nts
             c.cov["states"] += st["states"]
             c.cov["transitions"] += st["transitions"]
             c.cov["traces_validated_against_impl"] += st["ok"]
-    # a NOTE may be printed more than once (TLC evaluates an action for several successor candidates)
+    rejnames = {n for n, _ in rejected}
+    notes = [n for n in notes if n["trace"] not in rejnames]
+
+    def diag(args):
+        k, (name, evs) = args
+        _, _, hwm, r = _run_trace_chunk(c, [(name, evs)], cfg_text, timeout, "trace-d%d" % k)
+        ei = hwm - 1          # lines consumed: Reset + events 0..hwm-2; first refused event has index hwm-1
+        ei = max(0, min(ei, len(evs) - 1))
+        return dict(trace=name, index=ei, event=evs[ei], prev=evs[ei - 1] if ei > 0 else None, events=evs, tlc_tail="")
+
+    rejections = []
+    # diagnose one representative per distinct trace-name class first (names without counters), then the rest unexamined
+    with ThreadPoolExecutor(max_workers=max(1, parallel)) as ex:
+        rejections += list(ex.map(diag, list(enumerate(rejected[:diagnose]))))
+    for name, evs in rejected[diagnose:]:
+        rejections.append(dict(trace=name, index=-1, event=evs[-1], prev=None, events=evs, tlc_tail="(not diagnosed)"))
     uniq, seen = [], set()
     for n in notes:
         k = (n["trace"], n["index"], n["kind"])
